@@ -55,16 +55,43 @@ func (*DBDataCoder) Decode(expr sqlparser.Expr, _ config.ColumnEncryptionSetting
 			if !bytes.HasPrefix(val.Val, hexNumPrefix) {
 				return val.Val, nil
 			}
-			binValue := make([]byte, hex.DecodedLen(len(val.Val)-2))
-			_, err := hex.Decode(binValue, val.Val[2:])
+			// MySQL accepts an odd number of digits (0xABC = 0x0ABC). Without the padding hex.Decode fails,
+			// the whole statement is forwarded as it came and the values of encrypted columns reach the
+			// database in the clear.
+			digits := val.Val[2:]
+			if len(digits)%2 == 1 {
+				digits = append([]byte{'0'}, digits...)
+			}
+			binValue := make([]byte, hex.DecodedLen(len(digits)))
+			_, err := hex.Decode(binValue, digits)
 			if err != nil {
 				logrus.WithField(logging.FieldKeyEventCode, logging.EventCodeErrorCodingCantDecodeHexData).WithError(err).Errorln("Can't decode hex binary literal")
 				return nil, err
 			}
 			return binValue, nil
+		case sqlparser.BitVal:
+			// b'01000001' is a binary string like X'41' (bits are right-aligned: b'1' = X'01')
+			return decodeBitLiteral(val.Val)
 		}
 	}
 	return nil, base.ErrUnsupportedExpression
+}
+
+// decodeBitLiteral converts the digits of a MySQL bit-value literal to the binary string it stands for.
+func decodeBitLiteral(bits []byte) ([]byte, error) {
+	out := make([]byte, (len(bits)+7)/8)
+	shift := len(out)*8 - len(bits)
+	for i, c := range bits {
+		switch c {
+		case '1':
+			pos := i + shift
+			out[pos/8] |= 1 << (7 - uint(pos%8))
+		case '0':
+		default:
+			return nil, base.ErrUnsupportedExpression
+		}
+	}
+	return out, nil
 }
 
 // Encode data to correct literal from binary data for this expression
@@ -93,7 +120,8 @@ func (*DBDataCoder) Encode(expr sqlparser.Expr, data []byte, _ config.ColumnEncr
 				return data, nil
 			}
 			return encodeDataToHex(val, data)
-		case sqlparser.HexVal:
+		case sqlparser.HexVal, sqlparser.BitVal:
+			// a bit-value literal is written back as the equivalent X'..' literal
 			return encodeDataToHex(val, data)
 		case sqlparser.HexNum:
 			hexData, err := encodeDataToHex(val, data)
